@@ -1095,8 +1095,12 @@ class SQLObject(with_metaclass(declarative.DeclarativeMeta, object)):
             # Already called RowUpdateSignal, don't call it again
             # inside .set()
             self.sqlmeta.row_update_sig_suppress = True
-            self.set(**d)
-            del self.sqlmeta.row_update_sig_suppress
+            try:
+                self.set(**d)
+            finally:
+                del self.sqlmeta.row_update_sig_suppress
+            # set() has written the row and sent RowUpdatedSignal
+            return
         value = d[name]
         if from_python:
             dbValue = from_python(value, self._SO_validatorState)
